@@ -153,9 +153,14 @@ def check_advance(f):
     ck = R.norm_cmp(cond["op"], R.key(cond["l"]), R.key(cond["r"])) if cond.get("k") == "Binary" else None
     if ck not in (R.norm_cmp(">=", "(_coords.x + %s)" % dname, "0"),):
         raise Unrecognised("advance(): branch condition %s" % (ck,))
+    # the local 2-D offset (role: the variable whose .x and .y both arms assign), whatever its name
+    import re as _re
+    tg = [R.key(a["l"]) for a, _ in R.find(branch_if["then"], lambda x: x.get("k") == "Assign")]
+    m = _re.fullmatch(r"(\w+)\.x", tg[0]) if tg else None
+    delta = m.group(1) if m else "delta"
     # the updates after the branch
     tail = [R.key(s) for s in body.get("c", []) if R.strip(s).get("k") in ("CompoundAssign", "Call")]
-    if not ("(_coords.x += delta.x)" in tail and "(_coords.y += delta.y)" in tail and "(_p += delta)" in tail):
+    if not ("(_coords.x += %s.x)" % delta in tail and "(_coords.y += %s.y)" % delta in tail and "(_p += %s)" % delta in tail):
         raise Unrecognised("advance(): the deltas are not applied to _coords and _p as expected: %s" % tail)
     # slack substitutions: invariant 0 <= cx, W = 1 + w; forward: cx + d = t >= 0; backward: cx + d = -1 - t
     t, w = Poly.atom("t"), Poly.atom("w")
@@ -167,10 +172,10 @@ def check_advance(f):
         asg = {}
         for a, _ in R.find(arm, lambda x: x.get("k") == "Assign"):
             asg[R.key(a["l"])] = a["r"]
-        if set(asg) != {"delta.x", "delta.y"}:
+        if set(asg) != {delta + ".x", delta + ".y"}:
             raise Unrecognised("advance(): %s assigns %s" % (name, sorted(asg)))
         sy = Sym(env, facts[name])
-        dx, dy = sy.ev(asg["delta.x"]), sy.ev(asg["delta.y"])
+        dx, dy = sy.ev(asg[delta + ".x"]), sy.ev(asg[delta + ".y"])
         law = dx + W * dy - Poly.atom("d")
         ok_law = not law.t
         # x stays in [0,W): delta.x is (N % W) - cx with N >= 0
@@ -181,7 +186,7 @@ def check_advance(f):
                 if cxv >= Wv or ((cxv + dv >= 0) != name.startswith("forward")):
                     continue
                 vals = {"_coords.x": cxv, "_width": Wv, dname: dv}
-                gx, gy = c_eval(asg["delta.x"], vals), c_eval(asg["delta.y"], vals)
+                gx, gy = c_eval(asg[delta + ".x"], vals), c_eval(asg[delta + ".y"], vals)
                 if gx + Wv * gy != dv or not (0 <= cxv + gx < Wv):
                     wit = {"width": Wv, "x": cxv, "d": dv, "delta": [gx, gy], "index_moves_by": gx + Wv * gy}
                     break
